@@ -468,7 +468,20 @@ def r4_selection(ctx, rid="C02.R4"):
                             oldish.add(t_.id)
                 elif isinstance(tg, ast.Name) and isinstance(vl, (ast.Attribute, ast.Name, ast.Subscript)):
                     oldish.add(tg.id)
+    def _is_copy(name):
+        ds = [d.value for d in statements(f.node) if isinstance(d, ast.Assign) and len(d.targets) == 1 and isinstance(d.targets[0], ast.Name) and d.targets[0].id == name]
+        VIEWS = {"view", "reshape", "squeeze", "unsqueeze", "expand", "expand_as", "t", "detach", "flatten", "narrow", "select", "transpose", "permute", "view_as", "to", "float", "double", "contiguous",
+                 "as_tensor", "asarray", "from_numpy", "get", "pop", "values", "items"}
+        return bool(ds) and all(isinstance(v_, ast.Call) and (v_.func.attr if isinstance(v_.func, ast.Attribute) else U(v_.func).split(".")[-1]) not in VIEWS for v_ in ds)
     for st in statements(f.node):
+        if isinstance(st, ast.Assign) and isinstance(st.targets[0], ast.Subscript) and isinstance(st.targets[0].value, ast.Name) and polarity(st.targets[0].slice) is not None \
+                and not _is_copy(st.targets[0].value.id) and not isinstance(st.value, ast.Constant):
+            tn = st.targets[0].value.id
+            ctx.violation(rid, f, st, f"`{U(st)[:80]}` rewrites in place " + ("the snapshot tensor" if tn in oldish else "the cached tensor") + f" `{tn}` itself (no copy is taken): every other holder of that "
+                          "tensor - the REF snapshot, a history of kept draws, a cloned state - sees its rows change, so values recorded earlier are overwritten by later iterations",
+                          construct="restore in place")
+            reported = True
+            continue
         if isinstance(st, ast.Assign) and isinstance(st.targets[0], ast.Subscript) and isinstance(st.targets[0].value, ast.Name) and polarity(st.targets[0].slice) is not None \
                 and any(isinstance(x, ast.Name) and x.id in oldish for x in ast.walk(st.value)) and st.targets[0].value.id not in oldish:
             ctx.violation(rid, f, st, f"`{U(st)[:80]}` restores the rejected rows by item assignment into (a copy of) the current value: what is put back takes the dtype of the tensor derived from "
